@@ -18,6 +18,11 @@ func genC02(d *Draw) Case {
 	if k == 1 {
 		shape = 0
 	}
+	// 3: every start branch forks (parallel gateway, no join) into branches that end on their own: at an end
+	// event, or silently at a node without outgoing flow; "no token remains" then has to count forked tokens
+	if d.N(3) == 2 {
+		shape = 3
+	}
 	mk := func(id string) *Node {
 		return g.addNode(&Node{ID: id, Kind: "task", Results: []string{"r_" + id}})
 	}
@@ -38,6 +43,41 @@ func genC02(d *Draw) Case {
 		lasts = append(lasts, cur)
 	}
 	switch shape {
+	case 3:
+		tags["fork-no-join"] = true
+		nth := 0
+		for i, l := range lasts {
+			fk := g.addNode(&Node{ID: fmt.Sprintf("F%d", i+1), Kind: "and"})
+			g.connect(defs, l, fk.ID, nil, -1)
+			nb := 2 + d.N(2)
+			for b := 1; b <= nb; b++ {
+				cur := fk.ID
+				for j, nn := 0, d.N(3); j < nn; j++ {
+					var n *Node
+					if d.Bool() {
+						n = mk(fmt.Sprintf("B%d_%d_%d", i+1, b, j+1))
+					} else {
+						nth++
+						n = g.addNode(&Node{ID: fmt.Sprintf("TH%d", nth), Kind: "throw"})
+					}
+					g.connect(defs, cur, n.ID, nil, -1)
+					cur = n.ID
+				}
+				switch d.N(3) {
+				case 0:
+					e := g.addNode(&Node{ID: fmt.Sprintf("E%d_%d", i+1, b), Kind: "end"})
+					g.connect(defs, cur, e.ID, nil, -1)
+				case 1:
+					// dead end: a throw event without outgoing flow (the token ends without a trace)
+					nth++
+					n := g.addNode(&Node{ID: fmt.Sprintf("TH%d", nth), Kind: "throw"})
+					g.connect(defs, cur, n.ID, nil, -1)
+				case 2:
+					n := mk(fmt.Sprintf("D%d_%d", i+1, b))
+					g.connect(defs, cur, n.ID, nil, -1)
+				}
+			}
+		}
 	case 0:
 		for i, l := range lasts {
 			e := g.addNode(&Node{ID: fmt.Sprintf("E%d", i+1), Kind: "end"})
@@ -106,6 +146,11 @@ func genC02(d *Draw) Case {
 	}
 	c.Picks = drawPicks(d, 24)
 	c.Shutdown = d.N(4) == 3
+	if shape == 3 && d.Bool() {
+		// a slow subscriber: back-pressure through the tracer holds flows in their first Send
+		c.ExtraObs = 1
+		c.SlowObsMs = 1 + d.N(3)
+	}
 	var tl []string
 	for t := range tags {
 		tl = append(tl, t)
@@ -202,6 +247,7 @@ func checkC02(cc Case, r *simrt.Result) *Outcome {
 	o.Tags = c.Prog.Tags
 	o.Nontrivial = r.Switches > 0 && (c.Meta["k"] > 1 || len(c.Waiters) > 1)
 	probe(o, "multi-start", c.Meta["k"] > 1)
+	probe(o, "fork-without-join", strings.Contains(strings.Join(c.Prog.Tags, ","), "fork-no-join"))
 	probe(o, "subset-started", len(c.StartOnly) > 0)
 	probe(o, "waiter-expired", c.env.FaultCounts()["waiter-expired-then-waits-again"] > 0)
 	probe(o, "concurrent-startwith", c.StartMode == 2 && c.Meta["k"] > 1)
